@@ -81,6 +81,18 @@ def letcallcase(k):
     return "def pick(x: i64): Color { if x < 3 { Red } else { if x < 6 { Green } else { Gray } } }\ndef f(x: i64): i64 { %s }\n" % inner
 
 
+def closedif(k):
+    """k sequenced conditionals whose continuation is CLOSED (mentions no variable at all: neither the result
+    of the conditional nor any parameter) — only possible in a parameterless definition"""
+    body = " ".join("let a%d: i64 = if %d < %d { %d } else { %d };" % (i, i, i + 1, i, i + 1) for i in range(k))
+    return "def main(): i64 { %s 7 }\n" % body
+
+
+def closedcase(k):
+    body = " ".join("let a%d: i64 = (Cons(%d, Nil)).case[i64] { Nil => 0, Cons(h, t) => h };" % (i, i) for i in range(k))
+    return "def main(): i64 { %s 7 }\n" % body
+
+
 def codata(k):
     body = []
     for i in range(k):
@@ -119,6 +131,8 @@ FAMILIES = {
     "nestcase": (nestcase, "f(arg, Cons(arg, Nil))"),
     "letcase": (letcase, "f(arg)"),
     "letcallcase": (letcallcase, "f(arg)"),
+    "closedif": (closedif, None),      # the family IS main (only main has no return covariable)
+    "closedcase": (closedcase, None),
     "codata": (codata, "f(arg)"),
     "mixed": (mixed, "f(arg, Cons(arg, Nil), Blue)"),
 }
@@ -126,6 +140,8 @@ FAMILIES = {
 
 def program(family, k):
     fn, call = FAMILIES[family]
+    if call is None:
+        return HEAD + fn(k)
     return HEAD + fn(k) + "def main(arg: i64): i64 { println_i64(%s); 0 }\n" % call
 
 
